@@ -53,6 +53,8 @@ PALETTE = [
     # reduce to the bare guarded dimension, so the angle / temperature / logarithmic guards apply to the product
     ("code_twist*m", "angle", "custom_comp"), ("code_twist*code_length", "angle", "custom_comp"), ("code_twist", "other", "custom_comp"),
     ("code_tgrad*m", "temperature", "custom_comp"), ("code_lograte*s", "log", "custom_comp"), ("code_lograte", "other", "custom_comp"),
+    # a symbol the user defined in the default registry
+    ("verif_len", "length", "dadd"), ("kverif_len", "length", "dadd"), ("verif_len/s", "velocity", "dadd"),
     # prefixed forms that exist only where the registry re-added the base symbol as prefixable
     ("mdegF", "temperature", "custom_offset"), ("kft", "length", "custom"), ("mhr", "time", "custom"),
 ]
@@ -166,6 +168,9 @@ class FaultyWriter(io.StringIO):
 def build_registry(op):
     unyt, uo, ur = _m()
     if op is None or op.get("route") == "default":
+        # (every run is a pristine forked process: symbols a run adds to the default registry are gone with it)
+        for e in (op or {}).get("edits", []):
+            apply_edit(ur.default_unit_registry, e)
         return ur.default_unit_registry
     if op["route"] == "usys":
         reg = ur.UnitRegistry(unit_system=op.get("usys", "cgs"))
@@ -454,6 +459,10 @@ def rw_tokens(s):
 
 def gen_registry(r):
     if r.random() < 0.35:
+        if r.random() < 0.25:
+            # the user's own symbol in the DEFAULT registry (define_unit / default_unit_registry.add)
+            return {"route": "default", "edits": [{"k": "define", "sym": "verif_len", "v": r.choice([201.168, 3.0]), "s": "m",
+                                                   "prefixable": True}]}
         return {"route": "default"}
     route = wchoice(r, [("plain", 5), ("usys", 2), ("empty_plus", 1)])
     op = {"route": route, "edits": []}
@@ -517,10 +526,11 @@ def gen_values(r, dtype, n, guard):
 def gen_run(r, cfg):
     regop = gen_registry(r)
     custom = regop["route"] != "default"
-    pal = [p for p in PALETTE if custom or not p[2].startswith("custom")]
+    dadd = any(e.get("sym") == "verif_len" for e in regop.get("edits", []))
+    pal = [p for p in PALETTE if (custom or not p[2].startswith("custom")) and (p[2] != "dadd" or (dadd and not custom))]
     # bias towards guard-relevant classes
     weights = {"plain": 1, "compound": 1.5, "temp": 2, "temp_offset": 4, "temp_delta": 2, "angle": 4, "angle_offset": 2,
-               "log": 3, "em": 2, "custom": 4, "custom_offset": 4, "custom_comp": 5}
+               "log": 3, "em": 2, "custom": 4, "custom_offset": 4, "custom_comp": 5, "dadd": 25}
     unit, dim, guard = wchoice(r, [(p, weights[p[2]]) for p in pal])
     have = {e["sym"] for e in regop.get("edits", []) if e["k"] == "add"}
     if guard.startswith("custom") and not all(s in have for s in CUSTOM_SYMS if s in unit):
@@ -539,7 +549,7 @@ def gen_run(r, cfg):
         dtype = "float64" if dtype == ">f8" else "int64"
     build = {"k": "build", "kind": kind, "dtype": dtype, "unit": unit, "dim": dim, "guard": guard,
              "v": gen_values(r, dtype, n, guard) if kind == "array" else gen_values(r, dtype, 1, guard)[0],
-             "name": r.choice([None, "field"])}
+             "name": r.choice([None, "field"]), "prehash": r.random() < 0.3}
     if route == "savetxt":
         build["kind"] = "array"
         build["v"] = gen_values(r, dtype, n, guard)
@@ -787,6 +797,10 @@ class Sim11:
             self.log.add({"build_refused": type(e).__name__})
             return
         self.count("build:" + build["kind"])
+        if build.get("prehash"):
+            # the unit is hashed (as any memoised unit rule does) BEFORE the registry is edited further
+            hash(obj if isinstance(obj, uo.Unit) else obj.units)
+            self.count("prehash")
         late = next((o for o in ops if o["k"] == "late_edit"), None)
         if late is not None and custom and apply_edit(reg, late["edit"]):
             self.fault("registry_edited_after_object_creation")
